@@ -17,6 +17,44 @@ impl C09 {
     }
 }
 
+thread_local! {
+    /// (mode 0 none / 1 read / 2 write, address, result of the API call made inside the hook)
+    static HOOK_JOB: std::cell::Cell<(u8, u64)> = std::cell::Cell::new((0, 0));
+    static HOOK_RESULT: std::cell::RefCell<Option<Call<()>>> = std::cell::RefCell::new(None);
+}
+
+fn api_hook(ax: &mut Axecutor, _m: ax_x86::auto::generated::SupportedMnemonic) -> Result<ax_x86::state::hooks::HookResult, Box<dyn std::error::Error>> {
+    let (mode, addr) = HOOK_JOB.with(|j| j.get());
+    let r = match mode {
+        1 => Some(match call(|| ax.mem_read_64(addr)) {
+            Call::Ok(_) => Call::Ok(()),
+            Call::Err { msg, rej } => Call::Err { msg, rej },
+            Call::Panic(p) => Call::Panic(p),
+        }),
+        2 => Some(call(|| ax.mem_write_64(addr, 0x1122_3344_5566_7788))),
+        _ => None,
+    };
+    if r.is_some() {
+        HOOK_RESULT.with(|h| *h.borrow_mut() = r);
+    }
+    Ok(ax_x86::state::hooks::HookResult::Unhandled)
+}
+
+pub const SCRATCH_AT: u64 = 0x30_0000;
+
+/// hooks and handlers every test machine carries: a NOP hook that performs an API access on demand, the pipe handler,
+/// a scratch RW area, and a 16-byte executable area that ends exactly where the target area starts
+fn equip(ax: &mut Axecutor, target: u64) -> Option<()> {
+    catch(|| ax.hook_before_mnemonic_native(ax_x86::auto::generated::SupportedMnemonic::Nop, &api_hook)).ok()?.ok()?;
+    catch(|| ax.handle_syscalls(vec![ax_x86::helpers::syscalls::Syscall::Pipe])).ok()?.ok()?;
+    catch(|| ax.mem_init_zero(SCRATCH_AT, 0x100)).ok()?.ok()?;
+    let mut lead = vec![0x90u8; 16];
+    lead[15] = 0x48; // REX.W; the instruction continues in the target area (48 90 = nop)
+    catch(|| ax.mem_init_area(target - 16, lead)).ok()?.ok()?;
+    catch(|| ax.mem_prot(target - 16, 5)).ok()?.ok()?;
+    Some(())
+}
+
 pub const CODE_AT: u64 = 0x1000;
 pub const T_AT: u64 = 0x20_0000;
 pub const T_LEN: usize = 0x100;
@@ -35,9 +73,19 @@ pub enum Path {
     Call,
     Ret,
     Fetch,
+    /// an instruction whose first byte is the last byte of an executable area and whose remaining bytes are the
+    /// first bytes of the target area (which starts exactly there)
+    FetchStraddle,
+    /// API read / write issued from inside a native hook
+    HookRead,
+    HookWrite,
+    /// built-in pipe handler: read() copies out into the target, write() copies in from it, pipe() stores its result there
+    PipeRead,
+    PipeWrite,
+    PipeResult,
 }
 
-pub const PATHS: [Path; 22] = [
+pub const PATHS: [Path; 28] = [
     Path::ApiRead(8),
     Path::ApiRead(16),
     Path::ApiRead(32),
@@ -60,23 +108,30 @@ pub const PATHS: [Path; 22] = [
     Path::Call,
     Path::Ret,
     Path::Fetch,
+    Path::FetchStraddle,
+    Path::HookRead,
+    Path::HookWrite,
+    Path::PipeRead,
+    Path::PipeWrite,
+    Path::PipeResult,
 ];
 
 impl Path {
     /// bits the property says the access NEEDS
     pub fn needs(self) -> u32 {
         match self {
-            Path::ApiRead(_) | Path::GuestLoad | Path::MovupsLoad | Path::Pop | Path::Ret => 1,
-            Path::ApiWrite(_) | Path::GuestStore | Path::MovupsStore | Path::Push | Path::Call => 2,
+            Path::ApiRead(_) | Path::GuestLoad | Path::MovupsLoad | Path::Pop | Path::Ret | Path::HookRead | Path::PipeWrite => 1,
+            Path::ApiWrite(_) | Path::GuestStore | Path::MovupsStore | Path::Push | Path::Call | Path::HookWrite | Path::PipeRead | Path::PipeResult => 2,
             Path::GuestRmw => 3,
-            Path::Fetch => 4,
+            Path::Fetch | Path::FetchStraddle => 4,
         }
     }
     /// masks under which the access must succeed: only masks real paging can express
     /// (write implies read, execute implies read), so nothing beyond the statement is demanded
     pub fn must_succeed(self, mask: u32) -> bool {
         let expressible = matches!(mask, 1 | 3 | 5 | 7);
-        expressible && mask & self.needs() == self.needs()
+        // the emulator documents that it cannot access across two areas: a straddling fetch is never owed
+        expressible && mask & self.needs() == self.needs() && self != Path::FetchStraddle
     }
 }
 
@@ -91,6 +146,8 @@ struct Palette {
     pop: u64,
     call: u64,
     ret: u64,
+    nop: u64,
+    syscall: u64,
     landing: u64,
 }
 
@@ -111,9 +168,11 @@ fn palette(base: u64) -> Palette {
     let pop = at(&[0x58], &mut code);
     let call = at(&[0xe8, 0, 0, 0, 0], &mut code);
     let ret = at(&[0xc3], &mut code);
+    let nop = at(&[0x90], &mut code);
+    let syscall = at(&[0x0f, 0x05], &mut code);
     let landing = base + code.len() as u64;
     code.extend_from_slice(&[0x90; 16]);
-    Palette { code, load, store, rmw, xload, xstore, push, pop, call, ret, landing }
+    Palette { code, load, store, rmw, xload, xstore, push, pop, call, ret, nop, syscall, landing }
 }
 
 fn t_contents(landing: u64) -> Vec<u8> {
@@ -174,14 +233,76 @@ fn do_access(ax: &mut Axecutor, p: &Palette, path: Path, target: u64, counter: u
         Path::Call => guest(ax, p.call, 0, target + 0x40),
         Path::Ret => guest(ax, p.ret, 0, target + 0x40),
         Path::Fetch => guest(ax, target, 0, 0),
+        Path::FetchStraddle => guest(ax, target - 1, 0, 0),
+        Path::HookRead | Path::HookWrite => {
+            HOOK_JOB.with(|j| j.set((if path == Path::HookRead { 1 } else { 2 }, target + 0x20)));
+            HOOK_RESULT.with(|h| *h.borrow_mut() = None);
+            let step = guest(ax, p.nop, 0, 0);
+            HOOK_JOB.with(|j| j.set((0, 0)));
+            match HOOK_RESULT.with(|h| h.borrow_mut().take()) {
+                Some(r) => r,
+                None => match step {
+                    Call::Panic(pn) => Call::Panic(pn),
+                    other => Call::Err { msg: format!("the NOP hook did not run (step: {})", other.describe()), rej: ax_x86::verif::Rejection::None },
+                },
+            }
+        }
+        Path::PipeRead | Path::PipeWrite | Path::PipeResult => {
+            let sysc = |ax: &mut Axecutor, rax: u64, rdi: u64, rsi: u64, rdx: u64| -> Call<u64> {
+                call(|| {
+                    ax.reg_write_64(SR::RIP, p.syscall)?;
+                    ax.reg_write_64(SR::RAX, rax)?;
+                    ax.reg_write_64(SR::RDI, rdi)?;
+                    ax.reg_write_64(SR::RSI, rsi)?;
+                    ax.reg_write_64(SR::RDX, rdx)?;
+                    block_on(ax.step())?;
+                    ax.reg_read_64(SR::RAX)
+                })
+            };
+            let unit = |c: Call<u64>| -> Call<()> {
+                match c {
+                    Call::Ok(_) => Call::Ok(()),
+                    Call::Err { msg, rej } => Call::Err { msg, rej },
+                    Call::Panic(p) => Call::Panic(p),
+                }
+            };
+            if path == Path::PipeResult {
+                return unit(sysc(ax, 22, target + 0x20, 0, 0));
+            }
+            // a pipe whose ends are stored in the scratch area
+            if !sysc(ax, 22, SCRATCH_AT, 0, 0).is_ok() {
+                return Call::Err { msg: "setup: pipe() failed".into(), rej: ax_x86::verif::Rejection::Fatal };
+            }
+            let (rd, wr) = match (catch(|| ax.mem_read_64(SCRATCH_AT)), catch(|| ax.mem_read_64(SCRATCH_AT + 8))) {
+                (Ok(Ok(a)), Ok(Ok(b))) => (a, b),
+                _ => return Call::Err { msg: "setup: pipe ends unreadable".into(), rej: ax_x86::verif::Rejection::Fatal },
+            };
+            if path == Path::PipeWrite {
+                // copy-in from the target area
+                return unit(sysc(ax, 1, wr, target + 0x20, 8));
+            }
+            if !sysc(ax, 1, wr, SCRATCH_AT + 0x40, 8).is_ok() {
+                return Call::Err { msg: "setup: write() failed".into(), rej: ax_x86::verif::Rejection::Fatal };
+            }
+            // copy-out into the target area
+            unit(sysc(ax, 0, rd, target + 0x20, 8))
+        }
     }
 }
 
 /// Judges one access under `mask`. Returns Some((rule, detail)) on a violation.
 fn judge(ax: &mut Axecutor, p: &Palette, path: Path, target: u64, mask: u32, counter: u64) -> Option<(String, String)> {
-    let before = ax.verif_areas();
+    // the pipe paths run set-up syscalls first; only the final access is judged, so "before" excludes the scratch area
+    let strip = |v: Vec<ax_x86::verif::AreaView>| -> Vec<ax_x86::verif::AreaView> { v.into_iter().filter(|a| a.start != SCRATCH_AT).collect() };
+    let before = strip(ax.verif_areas());
     let res = do_access(ax, p, path, target, counter);
-    let after = ax.verif_areas();
+    let after = strip(ax.verif_areas());
+    if let Call::Err { msg, .. } = &res {
+        // set-up failures and the pipe handler's own guard against a random descriptor collision are not judged
+        if msg.starts_with("setup:") || msg.contains("Duplicate") {
+            return None;
+        }
+    }
     if res.is_panic() {
         return Some((format!("panic:{}", res.panic_key()), res.describe()));
     }
@@ -203,6 +324,7 @@ fn judge(ax: &mut Axecutor, p: &Palette, path: Path, target: u64, mask: u32, cou
 fn fresh(p: &Palette) -> Option<Axecutor> {
     let mut ax = catch(|| Axecutor::new(&p.code, CODE_AT, CODE_AT)).ok()?.ok()?;
     catch(|| ax.mem_init_area(T_AT, t_contents(p.landing))).ok()?.ok()?;
+    equip(&mut ax, T_AT)?;
     Some(ax)
 }
 
@@ -248,6 +370,10 @@ impl C09 {
                 .is_ok()
                 {
                     col.violation_case("setup-failed", k, "cannot create palette area".into(), json!(null));
+                    return;
+                }
+                if equip(&mut ax, T_AT).is_none() {
+                    col.violation_case("setup-failed", k, "cannot equip the machine".into(), json!(null));
                     return;
                 }
                 let eff = match mask {
@@ -349,6 +475,9 @@ impl C09 {
             // necessity on every path; sufficiency is not judged here (segment contents are arbitrary)
             for _ in 0..6 {
                 let path = *rng.pick(&PATHS);
+                if matches!(path, Path::FetchStraddle | Path::HookRead | Path::HookWrite | Path::PipeRead | Path::PipeWrite | Path::PipeResult) {
+                    continue; // these need the equipment of the synthetic machines
+                }
                 if path == Path::Fetch || path == Path::Ret {
                     if want & path.needs() == path.needs() {
                         continue; // would run arbitrary segment bytes
